@@ -161,6 +161,29 @@ func c14Scenarios() []*c14Scenario {
 			p := sh.(*c14Pair)
 			return []*s2.ShapeIndex{p.a.VerifIndex(), p.b.VerifIndex()}
 		}},
+		{Name: "S6-polygon-16-loops", Mk: func() any {
+			// more than 12 loops: the polygon keeps its cumulative edge table and locates loops through it
+			var ls []*s2.Loop
+			for i := 0; i < 16; i++ {
+				ls = append(ls, s2.RegularLoop(s2.PointFromLatLng(s2.LatLngFromDegrees(10+float64(i/4)*6, 20+float64(i%4)*6)), s1.Degree*2, 5))
+			}
+			return s2.PolygonFromLoops(ls)
+		}, Ops: []c14Op{
+			{"Polygon16.ContainsPoint(in loop 5)", func(sh any) string {
+				return fmt.Sprint(sh.(*s2.Polygon).ContainsPoint(s2.PointFromLatLng(s2.LatLngFromDegrees(16, 26))))
+			}},
+			{"Polygon16.ContainsPoint(in loop 14)", func(sh any) string {
+				return fmt.Sprint(sh.(*s2.Polygon).ContainsPoint(s2.PointFromLatLng(s2.LatLngFromDegrees(28, 32))))
+			}},
+			{"Polygon16.Edge sweep", func(sh any) string {
+				p := sh.(*s2.Polygon)
+				h := 0.0
+				for e := p.NumEdges() - 1; e >= 0; e -= 7 {
+					h += p.Edge(e).V0.X
+				}
+				return fmt.Sprint(h, p.IntersectsCell(s2.CellFromPoint(s2.PointFromLatLng(s2.LatLngFromDegrees(22, 38)))))
+			}},
+		}, Index: func(sh any) []*s2.ShapeIndex { return []*s2.ShapeIndex{sh.(*s2.Polygon).VerifIndex()} }},
 		{Name: "S5-loop40-prebuilt", Prebuilt: true, Mk: func() any { l := c14Loop(40); l.VerifIndex().Build(); return l }, Ops: loopOps,
 			Index: func(sh any) []*s2.ShapeIndex { return []*s2.ShapeIndex{sh.(*s2.Loop).VerifIndex()} }},
 	}
@@ -632,7 +655,22 @@ func c14FreeRunningRace(c *core.Ctx) {
 	cmd.Stderr = &se
 	err := cmd.Run()
 	if !strings.Contains(so.String(), "C14RACE-DONE") {
-		panic(core.HarnessError(fmt.Sprintf("free-running race pass failed: %v\n%s", err, tail(se.String(), 3000))))
+		// the pass did not finish: a panic or fatal error of golang/geo under real concurrency is a
+		// violation in its own right; anything else is a harness problem
+		txt := se.String()
+		i := strings.Index(txt, "panic: ")
+		if i < 0 {
+			i = strings.Index(txt, "fatal error: ")
+		}
+		if i >= 0 && strings.Contains(txt[i:], "github.com/golang/geo/s2.") {
+			first := txt[i:]
+			if j := strings.Index(first, "\n"); j > 0 {
+				first = first[:j]
+			}
+			c.Violate("free-running-race", "panic", "concurrent read-only queries crashed the process: "+first+" at "+core.GeoFrame(txt[i:]), nil, map[string]any{"stderr_tail": tail(txt, 3000)})
+		} else if !strings.Contains(txt, "WARNING: DATA RACE") {
+			panic(core.HarnessError(fmt.Sprintf("free-running race pass failed: %v\n%s", err, tail(txt, 3000))))
+		}
 	}
 	reports := strings.Split(se.String(), "WARNING: DATA RACE")
 	n := 0
